@@ -1592,10 +1592,68 @@ mod imp {
     }
 
     /// A consumer that reads in seeded small pieces with sleeps (varies relative speed).
+    /// A seeded consumer of the reader handed out by pull_consume*: the read PATTERN varies with the seed — random-sized reads
+    /// only; a prefix read with read()/read_exact-style loops that stops inside or at a chunk boundary followed by read_to_end
+    /// (header-then-rest consumers); vectored reads; io::copy. Whatever the pattern, the bytes are the stream's bytes, once.
     fn slow_drain(reader: &mut dyn Read, seed: u64, chunk: usize) -> Result<Vec<u8>, RepeError> {
         let mut r = Rng::new(seed ^ 0x510);
         let mut out = Vec::new();
         let mut buf = vec![0u8; (chunk * 2 + 3).min(200_000)];
+        let pattern = r.below(6);
+        match pattern {
+            1 | 2 => {
+                // prefix of k bytes (k around multiples of the chunk size and small values), then the rest in one call
+                let k = match r.below(5) {
+                    0 => 1,
+                    1 => chunk.saturating_sub(1).max(1),
+                    2 => chunk,
+                    3 => chunk + 1,
+                    _ => 1 + r.usize_below(3 * chunk + 5),
+                };
+                let mut head = vec![0u8; k];
+                let mut got = 0;
+                while got < k {
+                    let step = if pattern == 1 { k - got } else { 1 + r.usize_below(k - got) };
+                    let n = reader.read(&mut head[got..got + step])?;
+                    if n == 0 {
+                        break;
+                    }
+                    got += n;
+                }
+                out.extend_from_slice(&head[..got]);
+                reader.read_to_end(&mut out)?;
+                return Ok(out);
+            }
+            3 => {
+                // vectored reads into two buffers of uneven size, then read_to_end after a few of them
+                let rounds = r.usize_below(4);
+                for _ in 0..rounds {
+                    let (mut a, mut b) = (vec![0u8; 1 + r.usize_below(chunk + 2)], vec![0u8; 1 + r.usize_below(7)]);
+                    let n = {
+                        let mut bufs = [std::io::IoSliceMut::new(&mut a), std::io::IoSliceMut::new(&mut b)];
+                        reader.read_vectored(&mut bufs)?
+                    };
+                    if n == 0 {
+                        return Ok(out);
+                    }
+                    let na = n.min(a.len());
+                    out.extend_from_slice(&a[..na]);
+                    out.extend_from_slice(&b[..n - na]);
+                }
+                reader.read_to_end(&mut out)?;
+                return Ok(out);
+            }
+            4 => {
+                // one small read, then io::copy
+                let n = reader.read(&mut buf[..1])?;
+                out.extend_from_slice(&buf[..n]);
+                if n != 0 {
+                    std::io::copy(reader, &mut out)?;
+                }
+                return Ok(out);
+            }
+            _ => {}
+        }
         loop {
             let want = 1 + r.usize_below(buf.len());
             let n = reader.read(&mut buf[..want])?;
